@@ -62,7 +62,7 @@ def nodes_of(case):
 
 def _build_rose(t, cls, reg):
     kids = [_build_rose(k, cls, reg) for k in t[1]]
-    if cls.__name__ == "BaseNode":
+    if cls.__name__ in ("BaseNode", "SubBase"):
         n = cls(children=kids)
     else:
         n = cls("n%d" % t[0], children=kids)
@@ -78,66 +78,170 @@ def _build_bin(b, cls, reg):
     return n
 
 
-def run_impl(prop, case):
+_SUBCLASSES = {}
+
+
+def _classes():
+    """BaseNode / Node / BinaryNode and user-style subclasses of them (extra attribute, extra method,
+    overridden __repr__; nothing of the tree API is overridden)."""
+    if _SUBCLASSES:
+        return _SUBCLASSES
     from bigtree.node.basenode import BaseNode
     from bigtree.node.binarynode import BinaryNode
     from bigtree.node.node import Node
+
+    class SubNode(Node):
+        colour = "red"
+
+        def __repr__(self):
+            return "SubNode<%s>" % self.node_name
+
+        def label(self):
+            return self.node_name.upper()
+
+    class SubBase(BaseNode):
+        weight = 3
+
+    class SubBinary(BinaryNode):
+        colour = "blue"
+
+        def __repr__(self):
+            return "SubBinary<%s>" % self.node_name
+
+    _SUBCLASSES.update(BaseNode=BaseNode, Node=Node, BinaryNode=BinaryNode,
+                       SubNode=SubNode, SubBase=SubBase, SubBinary=SubBinary)
+    return _SUBCLASSES
+
+
+OBS_KEYS = ("pre", "post", "lo", "zz", "log", "zzg", "in")
+GROUPED = ("log", "zzg")
+
+
+def run_impl(prop, case):
     from bigtree.utils import iterators as it
 
+    classes = _classes()
     reg = {}
     if case["kind"] == "rose":
-        _build_rose(case["tree"], {"Node": Node, "BaseNode": BaseNode}[case["cls"]], reg)
+        _build_rose(case["tree"], classes[case["cls"]], reg)
     else:
-        _build_bin(case["tree"], BinaryNode, reg)
+        _build_bin(case["tree"], classes[case["cls"]], reg)
     num = {id(n): i for i, n in reg.items()}
 
     def nm(x):
         return num.get(id(x), FOREIGN)
 
-    def pred(tab):
+    def structure():
+        # links of every node as the public getters show them (None slots kept)
+        return {i: (None if n.parent is None else nm(n.parent),
+                    [None if c is None else nm(c) for c in n.children]) for i, n in reg.items()}
+
+    before = structure()
+
+    def pred(tab, ptype):
+        """condition as a function of node identity; `ptype` = what it returns:
+        bool | int (1/0) | obj (non-empty list / empty list) | none (a str / None)"""
         if tab is None:
             return None
         s = frozenset(tab)
+        if ptype == "int":
+            return lambda node: 1 if num.get(id(node), FOREIGN) in s else 0
+        if ptype == "obj":
+            return lambda node: [node] if num.get(id(node), FOREIGN) in s else []
+        if ptype == "none":
+            return lambda node: "yes" if num.get(id(node), FOREIGN) in s else None
         return lambda node: num.get(id(node), FOREIGN) in s
 
-    def flat_eager(gen):
-        # every node is read as soon as it is yielded
-        return [nm(x) for x in gen]
+    def makers(run):
+        """zero-argument constructors of the seven generators for this run, in OBS_KEYS order"""
+        start = reg[run["start"]]
+        ptype = run.get("pt", "bool")
+        f, st, m = pred(run["f"], ptype), pred(run["s"], ptype), run["m"]
+        call = run.get("call", "kw")
+        if call == "none" and m == 0:
+            m = None                                   # max_depth=None: no limit
+        fns = [it.preorder_iter, it.postorder_iter, it.levelorder_iter, it.zigzag_iter,
+               it.levelordergroup_iter, it.zigzaggroup_iter]
+        out = []
+        for fn in fns:
+            if call == "pos":
+                out.append(lambda fn=fn: fn(start, f, st, m))
+            elif call == "omit":
+                kw = {}
+                if f is not None:
+                    kw["filter_condition"] = f
+                if st is not None:
+                    kw["stop_condition"] = st
+                if m:
+                    kw["max_depth"] = m
+                out.append(lambda fn=fn, kw=kw: fn(start, **kw))
+            else:
+                out.append(lambda fn=fn: fn(start, filter_condition=f, stop_condition=st, max_depth=m))
+        if case["kind"] == "bin":
+            if call == "pos":
+                out.append(lambda: it.inorder_iter(start, f, m))
+            elif call == "omit":
+                kw = {}
+                if f is not None:
+                    kw["filter_condition"] = f
+                if m:
+                    kw["max_depth"] = m
+                out.append(lambda kw=kw: it.inorder_iter(start, **kw))
+            else:
+                out.append(lambda: it.inorder_iter(start, filter_condition=f, max_depth=m))
+        else:
+            out.append(lambda: iter(()))
+        return out
 
-    def flat_late(gen):
-        # the caller collects the whole iterator first and looks at the nodes afterwards
-        items = list(gen)
-        return [nm(x) for x in items]
+    def read(key, items):
+        return [[nm(x) for x in g] for g in items] if key in GROUPED else [nm(x) for x in items]
 
-    def groups_eager(gen):
-        return [[nm(x) for x in g] for g in gen]
+    def eager(mk):
+        # every node / group is read as soon as it is yielded
+        o = {}
+        for key, m_ in zip(OBS_KEYS, mk):
+            o[key] = [[nm(x) for x in g] for g in m_()] if key in GROUPED else [nm(x) for x in m_()]
+        return o
 
-    def groups_late(gen):
-        groups = list(gen)
-        return [[nm(x) for x in g] for g in groups]
+    def late(mk):
+        # the caller collects the whole iterator first and looks at the nodes / groups afterwards
+        o = {}
+        for key, m_ in zip(OBS_KEYS, mk):
+            items = list(m_())
+            o[key] = read(key, items)
+        return o
+
+    def interleaved(mk):
+        # all generators (two of every iterator) are created first and then advanced in turn, one step
+        # each; everything is read at the end
+        gens = [m_() for m_ in mk] + [m_() for m_ in mk]
+        got = [[] for _ in gens]
+        live = list(range(len(gens)))
+        while live:
+            for k in list(live):
+                try:
+                    got[k].append(next(gens[k]))
+                except StopIteration:
+                    live.remove(k)
+        n = len(mk)
+        a = {key: read(key, got[k]) for k, key in enumerate(OBS_KEYS)}
+        b = {key: read(key, got[n + k]) for k, key in enumerate(OBS_KEYS)}
+        return a, b
 
     out = []
     for run in case["runs"]:
-        start = reg[run["start"]]
-        kw = {"filter_condition": pred(run["f"]), "stop_condition": pred(run["s"]), "max_depth": run["m"]}
-        ikw = {"filter_condition": kw["filter_condition"], "max_depth": run["m"]}
-        o = None
-        for flat, groups in ((flat_eager, groups_eager), (flat_late, groups_late)):
-            cur = {
-                "pre": flat(it.preorder_iter(start, **kw)),
-                "post": flat(it.postorder_iter(start, **kw)),
-                "lo": flat(it.levelorder_iter(start, **kw)),
-                "zz": flat(it.zigzag_iter(start, **kw)),
-                "log": groups(it.levelordergroup_iter(start, **kw)),
-                "zzg": groups(it.zigzaggroup_iter(start, **kw)),
-                "in": flat(it.inorder_iter(start, **ikw)) if case["kind"] == "bin" else [],
-            }
-            if o is None:
-                o = cur
-            else:
-                # observation after full materialisation; stored only when it differs from the eager one
-                o["late"] = None if cur == {k: o[k] for k in cur} else cur
+        mk = makers(run)
+        o = eager(mk)
+        alts = []
+        a, b = interleaved(mk)
+        for mode, cur in (("late", late(mk)), ("interleaved", a), ("interleaved-twin", b), ("again", eager(mk))):
+            if cur != {k: o[k] for k in OBS_KEYS} and all(cur != {k: x[k] for k in OBS_KEYS} for x in alts):
+                alts.append(dict(cur, mode=mode))
+        o["alts"] = alts
         out.append(o)
+    after = structure()
+    if after != before:
+        out[0]["mutated"] = sorted(i for i in before if before[i] != after[i])
     return out
 
 
@@ -167,11 +271,15 @@ def emit(prop, case, obs):
     pos = {i: p for i, _, p, _ in nodes_of(case)}
     runs = []
     assert len(obs) == len(case["runs"])
+    mutated = any(o.get("mutated") for o in obs)
     for run, o0 in zip(case["runs"], obs):
-        # both observations (eager; after list(iterator)) must equal the model and satisfy the property:
-        # when they differ the run is emitted twice, once with each observation
-        for o in [o0] + ([o0["late"]] if o0.get("late") is not None else []):
-            io = "(IO %s %s %s %s %s %s)" % (_cl(o["pre"]), _cl(o["post"]), _cl(o["lo"]), _cl(o["zz"]),
+        # every observation mode (eager; after list(iterator); interleaved generators; second pass) must
+        # equal the model and satisfy the property: a mode that differs from the eager one is emitted as
+        # an additional run with the same arguments
+        for o in [o0] + list(o0.get("alts", [])):
+            # an input tree whose links changed during the iterations is reported through a foreign number
+            pre = list(o["pre"]) + ([FOREIGN] if mutated else [])
+            io = "(IO %s %s %s %s %s %s)" % (_cl(pre), _cl(o["post"]), _cl(o["lo"]), _cl(o["zz"]),
                                              _cll(o["log"]), _cll(o["zzg"]))
             runs.append("IR %s %s %s %d %s %s" % (_cl(pos[run["start"]]), copt(run["f"], _cl), copt(run["s"], _cl),
                                                    run["m"], io, _cl(o["in"])))
@@ -240,6 +348,16 @@ def gen_shape(rng, stratum):
     elif stratum == "star":
         n = rng.randint(3, 8)
         par = [None] + [0] * (n - 1)
+    elif stratum == "verydeep":
+        # a spine of depth 20..40 with a few forks (fan-out 2..3) at random heights
+        spine = rng.randint(20, 40)
+        par = [None] + list(range(spine - 1))
+        for _ in range(rng.randint(2, 6)):
+            p = rng.randrange(len(par))
+            for _ in range(rng.randint(1, 2)):
+                par.append(p)
+            if rng.random() < 0.5:
+                par.append(len(par) - 1)
     elif stratum == "wide":
         n = rng.randint(4, 12)
         par = [None]
@@ -357,9 +475,14 @@ def gen_run(rng, nodes):
     r = rng.random()
     if r < 0.4:
         m = 0
-    else:
+    elif r < 0.95:
         m = rng.randint(max(1, depth[start] - 1), maxd + 1)
-    return {"start": start, "f": f, "s": s, "m": m}
+    else:
+        m = maxd + rng.choice([2, 10, 1000])
+    # what the conditions return (truthy / falsy non-bools) and how the arguments are passed
+    pt = rng.choices(["bool", "int", "obj", "none"], [5, 2, 2, 2])[0]
+    call = rng.choices(["kw", "pos", "omit", "none"], [4, 3, 2, 1])[0]
+    return {"start": start, "f": f, "s": s, "m": m, "pt": pt, "call": call}
 
 
 def systematic_runs(nodes):
@@ -375,6 +498,11 @@ def systematic_runs(nodes):
                 runs.append({"start": st, "f": None, "s": None, "m": m})
     for x in ids:
         runs.append({"start": root, "f": None, "s": [x], "m": 0})
+    for st in ids:
+        # the start node itself stopped / filtered out / the only node kept
+        runs.append({"start": st, "f": None, "s": [st], "m": 0, "call": "pos"})
+        runs.append({"start": st, "f": [i for i in ids if i != st], "s": None, "m": 0, "pt": "obj"})
+        runs.append({"start": st, "f": [st], "s": [], "m": 0, "pt": "none", "call": "omit"})
     for l in _levels(nodes, root):
         runs.append({"start": root, "f": None, "s": sorted(l), "m": 0})
         runs.append({"start": root, "f": sorted(l), "s": None, "m": 0})
@@ -394,7 +522,7 @@ def exhaustive(rng, max_rose, max_bin, extra_random=2, per_case=4):
             tree = _number(sh)
             nodes = rose_nodes(tree)
             runs = systematic_runs(nodes) + [gen_run(rng, nodes) for _ in range(extra_random)]
-            cls = "Node" if k % 2 == 0 else "BaseNode"
+            cls = ["Node", "BaseNode", "SubNode", "SubBase"][k % 4]
             for j in range(0, len(runs), per_case):
                 yield "exhaustive/rose%d" % n, _mk("rose", cls, tree, runs[j:j + per_case], "exhaustive")
     for n in range(1, max_bin + 1):
@@ -403,10 +531,11 @@ def exhaustive(rng, max_rose, max_bin, extra_random=2, per_case=4):
             nodes = bin_nodes(tree)
             runs = systematic_runs(nodes) + [gen_run(rng, nodes) for _ in range(extra_random)]
             for j in range(0, len(runs), per_case):
-                yield "exhaustive/bin%d" % n, _mk("bin", "BinaryNode", tree, runs[j:j + per_case], "exhaustive")
+                yield "exhaustive/bin%d" % n, _mk("bin", "BinaryNode" if (j // per_case) % 3 else "SubBinary", tree,
+                                                   runs[j:j + per_case], "exhaustive")
 
 
-ROSE_STRATA = ["wide", "deep", "mixed", "path", "star"]
+ROSE_STRATA = ["wide", "deep", "mixed", "path", "star", "verydeep"]
 
 
 def gen_case(rng, nruns=2):
@@ -417,11 +546,12 @@ def gen_case(rng, nruns=2):
         tree = _number_bin(gen_bin_shape(rng, n, deep), rng)
         nodes = bin_nodes(tree)
         st = "bin-deep" if deep else "bin"
-        return _mk("bin", "BinaryNode", tree, [gen_run(rng, nodes) for _ in range(nruns)], st)
-    stratum = rng.choices(ROSE_STRATA, [4, 4, 4, 1, 1])[0]
+        cls = "SubBinary" if rng.random() < 0.2 else "BinaryNode"
+        return _mk("bin", cls, tree, [gen_run(rng, nodes) for _ in range(nruns)], st)
+    stratum = rng.choices(ROSE_STRATA, [8, 8, 8, 2, 2, 1])[0]
     tree = _number(gen_shape(rng, stratum), rng)
     nodes = rose_nodes(tree)
-    cls = rng.choice(["Node", "Node", "BaseNode"])
+    cls = rng.choice(["Node", "Node", "BaseNode", "SubNode", "SubBase"])
     return _mk("rose", cls, tree, [gen_run(rng, nodes) for _ in range(nruns)], stratum)
 
 
@@ -512,6 +642,10 @@ def shrink_candidates(prop, case):
             c = dict(case)
             c["runs"] = runs[:k] + [dict(r, m=0)] + runs[k + 1:]
             yield c
+        if r.get("pt", "bool") != "bool" or r.get("call", "kw") != "kw":
+            c = dict(case)
+            c["runs"] = runs[:k] + [dict(r, pt="bool", call="kw")] + runs[k + 1:]
+            yield c
         if r["start"] != root:
             c = dict(case)
             c["runs"] = runs[:k] + [dict(r, start=root)] + runs[k + 1:]
@@ -521,7 +655,8 @@ def shrink_candidates(prop, case):
 def size(case):
     return 3 * len(nodes_of(case)) + sum(
         4 + (0 if r["f"] is None else 1 + len(r["f"])) + (0 if r["s"] is None else 1 + len(r["s"]))
-        + (1 if r["m"] else 0) + (1 if r["start"] != case["tree"][0] else 0) for r in case["runs"])
+        + (1 if r["m"] else 0) + (1 if r["start"] != case["tree"][0] else 0)
+        + (1 if r.get("pt", "bool") != "bool" else 0) + (1 if r.get("call", "kw") != "kw" else 0) for r in case["runs"])
 
 
 def nontrivial(prop, case, obs):
@@ -533,10 +668,15 @@ def sample(prop, case, obs):
 
 
 def rule(prop):
-    return ("ordered trees (BaseNode/Node; strata wide fan-out<=6 / deep depth<=8 / mixed / path / star, <=12 nodes) and binary "
-            "trees with empty slots (BinaryNode, <=10 nodes) x start node (root or inner) x filter/stop tables (absent, random, "
-            "whole level stopped, empty) x max_depth (0 or around the start depth .. tree depth+1); all 7 iterators per run, each observed twice: "
-            "nodes/groups read as they are yielded, and read only after the whole iterator has been collected with list(); "
+    return ("ordered trees (BaseNode/Node and plain subclasses of them; strata wide fan-out<=6 / deep depth<=8 / mixed / path / star, "
+            "<=12 nodes, plus 'verydeep' spines of depth 20-40 with forks) and binary trees with empty slots in every position "
+            "(BinaryNode and a subclass, <=10 nodes) x start node (root or inner, also a start node that is itself stopped, "
+            "filtered out or deeper than max_depth) x filter/stop tables (absent, random, whole level stopped, empty) x what the "
+            "conditions return (bool, 1/0, non-empty/empty list, str/None) x max_depth (0, None, around the start depth .. tree "
+            "depth+1, far beyond) x how the arguments are passed (keywords, positionally, omitted); all 7 iterators per run (6 on "
+            "ordered trees), each observed five times: items read as they are yielded; read only after list(iterator); two "
+            "generators of every iterator created up front and advanced in turn (both copies); a second eager pass; afterwards "
+            "the parent/children links of every node must be what they were; "
             "plus every ordered tree with <=4 (thorough: <=6) nodes and every binary tree with <=3 (thorough: <=5) nodes under a "
             "systematic run set; non-trivial = tree has >=3 nodes and some run yields >=2 nodes; distinct by canonical JSON hash")
 
@@ -544,10 +684,14 @@ def rule(prop):
 def explain(prop, case, obs, flags):
     from ._base import explain as base
     msg = base(prop, case, obs, flags)
-    if isinstance(obs, list) and any(isinstance(o, dict) and o.get("late") is not None for o in obs):
-        keys = sorted({k for o in obs if o.get("late") for k in o["late"] if o["late"][k] != o[k]})
-        msg += ("; what a caller sees after collecting the whole iterator (list(it), then reading the items) differs from "
-                "what it sees reading each item as it is yielded, for: " + ", ".join(keys))
+    if isinstance(obs, list):
+        if any(isinstance(o, dict) and o.get("mutated") for o in obs):
+            msg += "; the links of the input tree changed while it was iterated (nodes %s)" % obs[0].get("mutated")
+        for o in obs:
+            for a in (o.get("alts") or []) if isinstance(o, dict) else []:
+                keys = sorted(k for k in OBS_KEYS if a[k] != o[k])
+                msg += ("; observation mode '%s' differs from reading each item as it is yielded, for: %s"
+                        % (a["mode"], ", ".join(keys)))
     return msg
 
 
@@ -557,7 +701,19 @@ def trusted_base(prop):
 
 
 def partial_clauses(prop):
-    return []
+    # deliberately accepted blind spots of the correspondence (the theorems are about the model)
+    return [
+        "not observed: how often / in which order / on which nodes the conditions are evaluated (conditions with side effects), "
+        "and what happens when a condition raises (the exception propagates out of the generator in the unchanged code)",
+        "not observed: laziness - a tree or condition modified between creating a generator and consuming it (the property "
+        "makes no claim; the generators read the links when they are advanced)",
+        "not observed: the container type of a group (tuple) and whether two groups are distinct objects; only their contents "
+        "after full materialisation",
+        "outside the model: negative or non-integer max_depth, DAGNode arguments (preorder_iter accepts them), node subclasses "
+        "that define __bool__/__len__ (the ungrouped iterators test `if tree`), trees deeper than the interpreter's recursion "
+        "limit (unchanged code: RecursionError from about depth 1000, about depth 500 with max_depth set, since node.depth is "
+        "recursive as well); generated depth <= 40",
+    ]
 
 
 def assumptions(prop):
